@@ -569,7 +569,7 @@ def run(ctx):
   import pymtl3
   quick = ctx.tier == 'quick'
   rng = ctx.rng
-  ndes = 220 if quick else 3000
+  ndes = 200 if quick else 3000
   names = [nm for nm, w, f in INJECTIONS for _ in range(w)]
   cases_bit, cases_faith, meta = [], [], []
   junk = []
